@@ -35,7 +35,7 @@ CONSTANTS
   MaxEdits,        \* length of the edit histories
   Gap,             \* the mod-key safety gap (3 s in modkey_unix.go), in ticks
   Settle,          \* subset of BOOLEAN: may >= Gap ticks pass between an edit and the next build?
-  ComparedFields,  \* subset of OptFields (see Cmp)
+  ComparedFields,  \* subset of OptFields: what js_parser.Options.Equal compares (see OptionsEqual)
   WatchKinds,      \* BOOLEAN
   Backdate,        \* BOOLEAN: allow an edit that keeps size, mtime and inode (violates "mtimes advance normally")
   CopyEntryPoints, \* BOOLEAN: does a build work on a copy of the context's entry-point list? (the code: FALSE)
@@ -122,8 +122,10 @@ FN(s, c, p) ==
     [isfile |-> s[p].k = "file", exists |-> s[p].k # "missing", c |-> s[p].c, f |-> NoneCfg,
      m |-> s[p].m, i |-> s[p].i, size |-> IF s[p].k = "file" THEN SrcSize(s[p].c) ELSE 1]
 
-\* modkey_unix.go: unusable while mtime + gap > now; otherwise (inode, size, mtime, mode, uid)
+\* (TLC: the comparison makes TLC tabulate a function once instead of re-evaluating its body per application)
 Force(f) == IF f = f THEN f ELSE f
+
+\* modkey_unix.go: unusable while mtime + gap > now; otherwise (inode, size, mtime, mode, uid)
 NoKey == [u |-> FALSE, i |-> 0, s |-> 0, m |-> 0]
 MK(fn, t) == IF fn.exists /\ fn.m + Gap <= t THEN [u |-> TRUE, i |-> fn.i, s |-> fn.size, m |-> fn.m] ELSE NoKey
 
@@ -232,10 +234,10 @@ Build(s, c, t, fc, ac, epx) ==
               \cup (IF entryParsed /\ D = "none" THEN {"d-unresolved"} ELSE {})
               \cup (IF didxParsed /\ LIB = "none" THEN {"lib-unresolved"} ELSE {})
               \* (the warning's note quotes the "sideEffects" line of package.json)
-              \cup (IF sideFx THEN {"ignored-bare-import:" \o pkgId} ELSE {})
+              \cup (IF sideFx THEN {"ignored-bare-import:" \o D \o ":" \o pkgId} ELSE {})
       \* a build with errors produces no output files: only diagnostics remain observable
       parseErrs == {p \in Loaded : IsBad(p, Used(p).c)}
-      failed == (diag \ {"ignored-bare-import:" \o pkgId}) # {} \/ parseErrs # {}
+      failed == (diag \ {"ignored-bare-import:" \o D \o ":" \o pkgId}) # {} \/ parseErrs # {}
       res == [mods |-> IF failed THEN {<<p, "bad", Used(p).c>> : p \in parseErrs}
                                        \cup {<<p, "warn", pkgId>> : p \in {q \in Loaded \cap {"cjs"} : Used(q).o.mt = "module"}}
                        ELSE {Eff(p) : p \in Loaded \ Dropped},
@@ -382,13 +384,13 @@ ApplyCfg(e) ==
 ----------------------------------------------------------------------------
 (* Behaviour: build, edit, build, edit, ...                                *)
 
-InitSrc == [p \in SrcPaths |->
-  CASE p \in {"entry", "xjs", "didx"} -> [k |-> "file", c |-> "1", m |-> 0, i |-> 1]
-    [] p = "d"   -> [k |-> "dir", c |-> "", m |-> 0, i |-> 2]
-    [] p = "dep" -> [k |-> "link", c |-> "A", m |-> 0, i |-> 3]
-    [] OTHER     -> Missing]
-InitSrcI == [p \in SrcPaths |-> IF InitSrc[p].k = "missing" THEN InitSrc[p]
-                               ELSE [InitSrc[p] EXCEPT !.i = CASE p = "entry" -> 1 [] p = "xjs" -> 2 [] p = "didx" -> 3 [] p = "d" -> 4 [] OTHER -> 5]]
+InitSrcI == [p \in SrcPaths |->
+  CASE p = "entry" -> [k |-> "file", c |-> "1", m |-> 0, i |-> 1]
+    [] p = "xjs"   -> [k |-> "file", c |-> "1", m |-> 0, i |-> 2]
+    [] p = "didx"  -> [k |-> "file", c |-> "1", m |-> 0, i |-> 3]
+    [] p = "d"     -> [k |-> "dir", c |-> "", m |-> 0, i |-> 4]
+    [] p = "dep"   -> [k |-> "link", c |-> "A", m |-> 0, i |-> 5]
+    [] OTHER       -> Missing]
 
 NoFlags == [stale |-> FALSE, astBad |-> {}, fsBad |-> {}, changed |-> FALSE, missed |-> FALSE, dirty |-> FALSE, uncovered |-> {},
             wellformed |-> TRUE]
@@ -468,6 +470,15 @@ ObservationsCovered == last.uncovered = {}
 WatchComplete == ~last.missed
 \* no predicate is dirty right after the build that recorded it
 WatchStateWellFormed == last.wellformed
+
+\* Reporting variants for the generator run on the transcription of the code: a
+\* violation of a property is exported as a candidate (with its history) instead
+\* of stopping TLC; candidates are verdicts only if the real code reproduces them.
+Cand(name, bad) == bad => PrintT(<<"CASE", ToJson([cand |-> name, edits |-> hist])>>)
+CandRebuild == Cand("RebuildEqualsFresh", phase = "edit" /\ last.stale)
+CandAst     == Cand("AstHitImpliesSameRelevantOpts", phase = "edit" /\ last.astBad # {})
+CandWatch   == Cand("WatchComplete", phase = "build" /\ last.missed)
+CandObs     == Cand("ObservationsCovered", phase = "build" /\ last.uncovered # {})
 
 TypeOK == /\ phase \in {"build", "edit"} /\ Len(hist) <= MaxEdits /\ Len(exp) <= Len(hist)
 =============================================================================
